@@ -3,6 +3,7 @@
 package signaling
 
 import (
+	"sort"
 	"fmt"
 	"io"
 	"log"
@@ -71,6 +72,19 @@ func (g *hdGen) pickFreeConn() (int, bool) {
 func (g *hdGen) idref(priv bool) *hdIdRef {
 	x := g.r.intn(100)
 	c := g.pickConn()
+	if !priv && (g.opts.internal || g.opts.virtual) && g.r.chance(18) {
+		// the public id of a virtual session (number 1..3) of some internal client, whichever backend it is on
+		var ic []int
+		for k, v := range g.intern {
+			if v {
+				ic = append(ic, k)
+			}
+		}
+		if len(ic) > 0 {
+			sort.Ints(ic)
+			return &hdIdRef{T: "vpub", C: pick(g.r, ic), V: 1 + g.r.intn(3)}
+		}
+	}
 	if priv && len(g.dropped) > 0 && g.r.chance(60) {
 		c = pick(g.r, g.dropped)
 	}
@@ -188,6 +202,15 @@ func (g *hdGen) apiOp(bk int) hdOp {
 		used := map[int]bool{}
 		for i := 0; i < n; i++ {
 			u := hdApiUser{RS: 1 + r.intn(8), InCall: pick(r, []int{0, 1, 3, 7})}
+			if r.chance(18) {
+				// a signaling session id where a Nextcloud session id belongs (resolves to nobody)
+				u = hdApiUser{Id: g.idref(false), InCall: u.InCall}
+				if r.chance(50) {
+					u.HasP, u.Perm = true, []int{r.intn(len(hdPermNames))}
+				}
+				l = append(l, u)
+				continue
+			}
 			if used[u.RS] {
 				// the server handles the entries of one request concurrently: two entries for one session race
 				continue
